@@ -248,6 +248,7 @@ MC = {
     "MC_Sites": (["PrefixSuffix", "WindowInverse", "PositionsInverse", "SplitReassemble", "ModuloPartition", "TransposeTwice",
                   "DiffRoundTrip", "RefWindowMinimal", "TrimIsSubAlign"], {"MaxLen": 2}, {"MaxLen": 4}),
     "MC_SW": (["GotohIsBrute", "Symmetric", "TablesOK"], {"MaxLen": 2}, {"MaxLen": 3}),
+    "MC_Clean": (["CleanPartition", "EndsMaximal", "DedupLemmas", "MaskFrame"], {"Rows": 2, "Cols": 3}, {"Rows": 3, "Cols": 3}),
     "MC_Transforms": (["Involution", "KeepsShape", "CaseIdem", "CaseOnly", "UngapKept", "ObjLevel"], {"MaxLen": 2}, {"MaxLen": 3}),
 }
 
@@ -321,10 +322,10 @@ def _c04(work, v, tier, seed):
 PIPELINES["C04"] = _c04
 
 PIPELINES["C05"] = heap_pipeline("C05", quick=dict(depth=1, rand=200), thorough=dict(depth=1, scope="full", rand=4000))
-PIPELINES["C12"] = heap_pipeline("C12", quick=dict(depth=1, rand=250), thorough=dict(depth=1, scope="full", rand=4000))
-PIPELINES["C13"] = heap_pipeline("C13", quick=dict(depth=1, rand=250), thorough=dict(depth=2, scope="full", rand=4000))
+PIPELINES["C12"] = heap_pipeline("C12", quick=dict(depth=1, rand=250), thorough=dict(depth=1, scope="full", rand=4000), mc=["MC_Clean"])
+PIPELINES["C13"] = heap_pipeline("C13", quick=dict(depth=1, rand=250), thorough=dict(depth=2, scope="full", rand=4000), mc=["MC_Clean"])
 PIPELINES["C14"] = heap_pipeline("C14", quick=dict(depth=1, rand=200), thorough=dict(depth=1, scope="full", rand=3000))
-PIPELINES["C15"] = heap_pipeline("C15", quick=dict(depth=1, rand=250), thorough=dict(depth=1, scope="full", rand=4000))
+PIPELINES["C15"] = heap_pipeline("C15", quick=dict(depth=1, rand=250), thorough=dict(depth=1, scope="full", rand=4000), mc=["MC_Clean"])
 PIPELINES["C19"] = heap_pipeline("C19", quick=dict(depth=2, rand=250), thorough=dict(depth=2, scope="full", rand=4000))
 
 
@@ -583,7 +584,7 @@ def _c08(work, v, tier, seed):
     cfg = write_cfg(work, "MC_DistConc_%s.cfg" % tier, spec="Spec", props=["Termination"],
                     invariants=["NoRaceOnErr", "NoRaceOnCells", "MutexOK", "ErrorReturned", "Determinate", "OneResultPerPair"],
                     constants={"MaxPairs": 3 if q else 4, "MaxWorkers": 2 if q else 3, "DoneOnError": "TRUE"})
-    v.add_mc(vf.tlc_mc(work, "MC_DistConc", cfg, workers=8, timeout=3000), "mc:DistMatrixConc")
+    v.add_mc(vf.tlc_mc(work, "MC_DistConc", cfg, workers=8, timeout=3000, coverage=True), "mc:DistMatrixConc")
     # the protocol of the pinned code (failing worker returns without signalling) must be rejected: the model is sharp
     cfg2 = write_cfg(work, "MC_DistConc_pinned.cfg", spec="Spec", props=["Termination"], constants={"MaxPairs": 2, "MaxWorkers": 2, "DoneOnError": "FALSE"})
     r = vf.run_tlc(work, "MC_DistConc", cfg2, workers=4, timeout=600)
@@ -688,7 +689,7 @@ def _c16(work, v, tier, seed):
     cfg = write_cfg(work, "MC_PhaseConc_%s.cfg" % tier, spec="Spec", props=["StreamClosed", "FeederFinishes"],
                     invariants=["NoSendAfterClose", "OneResultEach", "NoDuplicate", "ErrorDelivered", "ErrorSeen"],
                     constants={"MaxSeqs": 3 if q else 4, "MaxWorkers": 2 if q else 3, "SignalOnFail": "TRUE"})
-    v.add_mc(vf.tlc_mc(work, "MC_PhaseConc", cfg, workers=8, timeout=3000), "mc:PhaseConc")
+    v.add_mc(vf.tlc_mc(work, "MC_PhaseConc", cfg, workers=8, timeout=3000, coverage=True), "mc:PhaseConc")
     cfg2 = write_cfg(work, "MC_PhaseConc_sanity.cfg", spec="Spec", props=["StreamClosed"], constants={"MaxSeqs": 2, "MaxWorkers": 2, "SignalOnFail": "FALSE"})
     r = vf.run_tlc(work, "MC_PhaseConc", cfg2, workers=4, timeout=600)
     if "StreamClosed" not in r.out or "violated" not in r.out:
